@@ -39,7 +39,11 @@ func SetMaxRoutines(ctx context.Context, max int) context.Context {
 			case <-ctx.Done():
 				return
 			case <-time.After(10 * time.Millisecond):
-				limitChan <- struct{}{}
+				select {
+				case limitChan <- struct{}{}:
+				default:
+					// all permits are available: nothing to refill
+				}
 				count, ok := getCount(ctx)
 				if ok {
 					if rand.Intn(100) == 0 {
@@ -81,8 +85,8 @@ func releaseRoutine(ctx context.Context) bool {
 	}
 	select {
 	case limitChan <- struct{}{}:
-	case <-ctx.Done():
-		return false
+	default:
+		// the ticker already refilled this permit: handing it back must never block
 	}
 	count, ok := getCount(ctx)
 	if ok {
